@@ -310,16 +310,24 @@ def _run(ctx, w):
             ("Tbc", "parser::TbcScope::CurrentColumn"): ("unset", unsetter), ("Tbc", "parser::TbcScope::All"): ("clear", clearer[0] if len(clearer) == 1 else None)}
     for (v, sel), (kind, fn_want) in sorted(want.items()):
         for h in w.handler(v):
-            try:
-                ev, me = hinterp.run_handler(w, S, R, h, [("v", sel)], 10, 3, 3, 1, opaque_tabs=True)
-            except Exception as ex:
-                ctx.violation("Z9", "%s:%s" % (v, sel.rsplit("::", 1)[1]), "cannot evaluate %s for %s: %s" % (h, sel, ex), loc=w.fn_loc(h))
-                continue
-            te = [(e[0], e[1]) for e in ev if e[2] == "tabs"]
-            exp = [(fn_want, [3])] if kind in ("set", "unset") else [(fn_want, [])]
-            ctx.check(fn_want is not None and te == exp, "Z9", "%s:%s" % (v, sel.rsplit("::", 1)[1]),
-                      "%s with %s performs %s on the tab table; expected %s%s" % (h, sel, te, fn_want, " at the cursor column" if kind != "clear" else ""), loc=w.fn_loc(h),
-                      sample={"selector": sel, "operations": [t[0] for t in te]})
+            # at an ordinary column, in the first and last column, and in the wrap-pending position (col == cols): the
+            # operation always concerns the column the cursor reports
+            for ccol, pend in ((3, False), (0, False), (9, False), (10, True)):
+                try:
+                    ev, me = hinterp.run_handler(w, S, R, h, [("v", sel)], 10, 3, ccol, 1, opaque_tabs=True, **{R["pending_wrap"]: pend})
+                except Exception as ex:
+                    ctx.violation("Z9", "%s:%s@%d" % (v, sel.rsplit("::", 1)[1], ccol), "cannot evaluate %s for %s: %s" % (h, sel, ex), loc=w.fn_loc(h))
+                    continue
+                te = [(e[0], e[1]) for e in ev if e[2] == "tabs"]
+                if kind == "set":
+                    exp = [(fn_want, [ccol])] if 0 < ccol < 10 else []
+                elif kind == "unset":
+                    exp = [(fn_want, [ccol])]
+                else:
+                    exp = [(fn_want, [])]
+                ctx.check(fn_want is not None and te == exp, "Z9", "%s:%s@%d" % (v, sel.rsplit("::", 1)[1], ccol),
+                          "%s with %s and the cursor in column %d%s performs %s on the tab table; expected %s" % (h, sel, ccol, " (wrap pending)" if pend else "", te, exp), loc=w.fn_loc(h),
+                          sample={"selector": sel, "column": ccol, "operations": [t[0] for t in te]})
     ctx.floor("Z9", 5, "tab selectors")
     shared.count_passthrough(ctx, w, S, R, "Z9c", ["Cht", "Cbt"])
     # tabbing is a cursor command: it clears wrap-pending (leaves a real column) on every path
@@ -329,6 +337,35 @@ def _run(ctx, w):
         shared.frame(ctx, w, "Z7", v, [(tabs_f,)], "setting/clearing tab stops changes nothing else")
 
     # ---- Z8 the search ------------------------------------------------------------------------------------------------------
+    # semantic form: both searches evaluated on concrete (sorted, duplicate-free) stop tables
+    z8_sem = None
+    try:
+        from rules import prims as _pr
+        tf = [f["name"] for f in w.facts.struct_fields(tabs_ty) or []]
+        searches = [fn for fn, fo in sorted(fns.items()) if [i["s"] for i in fo["inputs"]][1:] == ["usize", "usize"] and (fo.get("output") or {}).get("s") == "core::option::Option<usize>"]
+        tables_ = ([8, 16, 24, 32], [3, 8, 9, 30], [], [5])
+        if len(tf) == 1 and len(searches) == 2:
+            okz = True
+            kinds = set()
+            for fn in searches:
+                probe = _pr.VecInterp(w.facts).call_fn(fn, [("obj", tabs_ty, {tf[0]: _pr.Vec([10, 20])}), 15, 1])
+                kind = "after" if probe == H.some(20) else "before" if probe == H.some(10) else None
+                kinds.add(kind)
+                for stops in tables_:
+                    for pos in range(0, 36):
+                        for n_ in range(1, 5):
+                            r = _pr.VecInterp(w.facts).call_fn(fn, [("obj", tabs_ty, {tf[0]: _pr.Vec(list(stops))}), pos, n_])
+                            cand = [t for t in stops if t > pos] if kind == "after" else list(reversed([t for t in stops if t < pos]))
+                            want = H.some(cand[n_ - 1]) if len(cand) >= n_ else H.NONE_V
+                            if r != want:
+                                okz = False
+            z8_sem = okz and kinds == {"after", "before"}
+    except Exception:
+        z8_sem = None
+    ctx.rule("Z8s", "the two stop searches evaluated on concrete sorted stop tables ([8,16,24,32], [3,8,9,30], [], [5]; every column 0..35, counts 1..4) return the n-th stop right / left of the column, or nothing")
+    if z8_sem is not None:
+        ctx.check(z8_sem, "Z8s", "searches", "a stop search returns something other than the n-th stop strictly right / left of the given column on a small concrete stop table", loc=w.fn_loc(rf))
+    ctx = shared.Deferred(ctx, {"Z8"}, z8_sem)
     ctx.rule("Z8", "the n-th next (previous) stop: iterate ascending (descending), skip the stops <= (>=) the cursor column, take nth(n-1)")
     for fn, fo in sorted(fns.items()):
         ins = [i["s"] for i in fo["inputs"]]
